@@ -929,6 +929,19 @@ RARE_DECLS = [
 ]
 
 
+# statements found by the mutant study of the search model (tools/search_mutants.py): each is the shortest input that told one
+# surviving one-point mutant of the model from the implementation - shapes no generator produced
+RARE_STMTS = [
+    ("procedure P;\nbegin\n  raise // c\n    EFoo.Create(Aaaaaaaa + Bbbbbbbb + Cccccccc);\nend;\n", [30, 40, 120]),
+    ("type\n  TFoo = class\n    procedure Foo; overload // c\n    ;\n    property P: Integer read FP // c\n    ;\n  end;\n", [30, 120]),
+    ("procedure P;\nbegin\n  case X of\n    Cccccccc(procedure begin X; end), Ddddddddd: Bar;\n  end;\nend;\n", [30, 40, 60]),
+    ("type\n  TBar = array[Aaaa < Bbbb .. Cccc < Dddd] of Integer;\n", [30, 60, 120]),
+    ("procedure P;\nbegin\n  if A then Foo else begin Bar; end;\n  if A then begin Foo; end else begin Bar; end;\nend;\n", [20, 40, 120]),
+    ("procedure P; begin if B then case C of 10..15: begin;; end; end; end;\n", [18, 19, 20, 21, 22, 30]),
+    ("procedure P;\nbegin\n  Foo(Xxxx := 3, Yyyy := 4);\n  Obj.Method(Aaaa := Bbbb, Cccc := Dddd + Eeee);\nend;\n", [12, 20, 30, 69]),
+]
+
+
 def grammar_program(rng):
     return GrammarGen(rng).program()
 
